@@ -30,6 +30,14 @@ def stepLine (s : State Int) : List String → State Int × String
     | some i => let s' := tellPending s i; (s', "ok " ++ obs s')
     | none => (s, "bad-op")
   | ["remove_unfinished"] => let s' := removeUnfinished s; (s', "ok " ++ obs s')
+  | ["tell_many", ks, vs] => match parseNats ks, parseInts vs with
+    -- `BaseLearner.tell_many`: the pairs are told one by one, in order
+    | some ks, some vs =>
+      if ks.length = vs.length then
+        let s' := (ks.zip vs).foldl (fun s kv => tell s kv.1 kv.2) s
+        (s', "ok " ++ obs s')
+      else (s, "bad-op")
+    | _, _ => (s, "bad-op")
   | ["set_data", ks, vs] => match parseNats ks, parseInts vs with
     | some ks, some vs => let s' := setData s (ks.zip vs); (s', "ok " ++ obs s')
     | _, _ => (s, "bad-op")
